@@ -44,9 +44,15 @@ def lib():
 
 
 def reset_config():
+    """back to the default tolerance.  Best effort: if the setters themselves fail, that is C19's finding (its
+    histories call them under guard and report it); the other checks then simply run at whatever the
+    import-time configuration is, which is the default they need."""
     G = lib()
-    G.set_eps()
-    G.set_sig_figures()
+    try:
+        G.set_eps()
+        G.set_sig_figures()
+    except Exception:
+        pass
 
 
 def repo_head():
